@@ -1241,57 +1241,75 @@ func verifSetConditionLaws() {
 	rt.Assert(v == 3, "setcondition/other-field-lost")
 	got, _ := status["conditions"].([]interface{})
 
-	idx := -1
+	// What a reader of the status relies on (position in the list is not part of
+	// it): the FIRST condition of that type is the new one; every condition of
+	// another type is still there with its status; nothing else appeared.
+	had := false
 	for j := range ctype {
-		if idx < 0 && ctype[j] == nc.Type {
-			idx = j
+		if ctype[j] == nc.Type {
+			had = true
 		}
 	}
-	at := func(i int) map[string]interface{} {
-		if i < len(got) {
-			m, _ := got[i].(map[string]interface{})
-			return m
-		}
-		return nil
+	if had {
+		rt.Cover("setcondition-replace")
+	} else {
+		rt.Cover("setcondition-append")
 	}
-	isNew := func(m map[string]interface{}) {
-		rt.Assert(m != nil, "setcondition/new-condition-missing")
+	first := -1
+	for i := range got {
+		m, _ := got[i].(map[string]interface{})
+		rt.Assert(m != nil, "setcondition/entry-is-not-an-object")
 		if m == nil {
-			return
+			continue
 		}
 		t, _ := m["type"].(string)
+		if t == nc.Type && first < 0 {
+			first = i
+		}
+	}
+	rt.Assert(first >= 0, "setcondition/new-condition-missing")
+	if first >= 0 {
+		m := got[first].(map[string]interface{})
 		st, _ := m["status"].(string)
 		re, _ := m["reason"].(string)
 		msg, _ := m["message"].(string)
-		rt.Assert(t == nc.Type, "setcondition/new-condition-type-wrong")
 		l := "setcondition/appended-condition-wrong"
-		if idx >= 0 {
+		if had {
 			l = "setcondition/existing-type-not-replaced"
 		}
 		rt.Assert(st == nc.Status, l)
 		rt.Assert(re == nc.Reason, l)
 		rt.Assert(msg == "m", l)
 	}
-	if idx >= 0 {
-		rt.Cover("setcondition-replace")
-		rt.Assert(len(got) == len(ctype), "setcondition/replace-changed-length")
-		isNew(at(idx))
-	} else {
-		rt.Cover("setcondition-append")
-		rt.Assert(len(got) == len(ctype)+1, "setcondition/append-length-wrong")
-		isNew(at(len(ctype)))
-	}
 	for j := range ctype {
-		if j == idx {
+		if ctype[j] == nc.Type {
 			continue
 		}
-		m := at(j)
-		rt.Assert(m != nil, "setcondition/other-condition-lost")
-		if m != nil {
-			t, _ := m["type"].(string)
-			st, _ := m["status"].(string)
-			rt.Assert(t == ctype[j] && st == cstatus[j], "setcondition/other-condition-changed")
+		found := false
+		for i := range got {
+			if m, _ := got[i].(map[string]interface{}); m != nil {
+				t, _ := m["type"].(string)
+				st, _ := m["status"].(string)
+				if t == ctype[j] && st == cstatus[j] {
+					found = true
+				}
+			}
 		}
+		rt.Assert(found, "setcondition/other-condition-lost-or-changed")
+	}
+	for i := range got {
+		m, _ := got[i].(map[string]interface{})
+		if m == nil {
+			continue
+		}
+		t, _ := m["type"].(string)
+		known := t == nc.Type
+		for j := range ctype {
+			if ctype[j] == t {
+				known = true
+			}
+		}
+		rt.Assert(known, "setcondition/condition-of-an-unknown-type-appeared")
 	}
 	rt.Observe("len", len(got))
 }
